@@ -137,10 +137,11 @@ PLAN = {
                   "hypercorn.middleware.http_to_https:HTTPToHTTPSRedirectMiddleware._send_websocket_redirect"],
         "trusted_base": ["abstract callables for the wrapped application / send / receive (pyvc:Callable)", "DispatcherMiddleware.mounts modelled as an insertion ordered sequence of prefixes of any length (pyvc:Mounts)"],
         "assumptions": ["urllib.parse.urlunsplit, str.split, strip and lower are uninterpreted functions", "raw_path and query_string are ASCII (ASGI percent-encoding)",
-                        "the lifespan fan-out of DispatcherMiddleware (startup/shutdown complete only when every mount completed) is not under contract: it is decided by the bounded stand-in standins/dispatcher_lifespan.py only"],
+                        "lifespan fan-out of DispatcherMiddleware: the counting rule (send(): a completion is forwarded exactly when, with the mount's own mark, every flag of the table is set) is under contract for both classes; _handle_lifespan (a task and a queue per mount, the tables initialised for every mount, every lifespan message handed to every mount) is decided by the bounded stand-in standins/dispatcher_lifespan.py only",
+                        "all(table.values()) over a str -> bool table of any size is the uninterpreted predicate all_flags_true(has, val), pinned down by instances of its definition at the keys in play and at a witness of its negation (pyvc/models.py flags_all)"],
         "explanation": "proxy fix: trusted value is counted from the right end, zero hops / too few values leave the scope untouched, the caller's scope is never written; dispatcher: first matching mount in dict order with the prefix stripped and never empty, else 404 (loop invariant over the mount sequence); redirect: 307 to the same host/path/query, secure requests passed through with identical arguments",
         "level_text": "Postconditions and loop invariants proved for all header lists, hop counts, mount tables of any size and request paths.",
-        "level_note": "Trusted: pyvc encoder; string helper functions uninterpreted; lifespan fan-out not covered; 'modern' mode falling back to X-Forwarded-* when no Forwarded header is usable is an observation, not claimed either way.",
+        "level_note": "Trusted: pyvc encoder; string helper functions uninterpreted; of the lifespan fan-out only the counting rule of send() is proved, _handle_lifespan is a bounded stand-in; 'modern' mode falling back to X-Forwarded-* when no Forwarded header is usable is an observation, not claimed either way.",
     },
     "C19": {
         "units": ["hypercorn.__main__:main", "hypercorn.__main__:_load_config", "hypercorn.config:Config.response_headers", "hypercorn.config:Config.bind.setter", "hypercorn.config:Config.insecure_bind.setter",
@@ -359,3 +360,5 @@ PLAN["C02"]["units"] = PLAN["C02"]["units"] + [HP + "_priority_updated", HP + "_
 PLAN["C06"]["units"] = PLAN["C06"]["units"] + [HS + "app_send"]
 PLAN["C20"]["units"] = PLAN["C20"]["units"] + ["hypercorn.middleware.proxy_fix:ProxyFixMiddleware.__init__", "hypercorn.middleware.dispatcher:_DispatcherMiddleware.__init__",
                                                "hypercorn.middleware.http_to_https:HTTPToHTTPSRedirectMiddleware.__init__"]
+# C20 "startup/shutdown complete only when every mount has completed": the counting rule of both send()
+PLAN["C20"]["units"] = PLAN["C20"]["units"] + ["hypercorn.middleware.dispatcher:AsyncioDispatcherMiddleware.send", "hypercorn.middleware.dispatcher:TrioDispatcherMiddleware.send"]
